@@ -12,6 +12,18 @@ COMMON_NOTE = (
 )
 
 CHECKS = {
+    "C12": dict(
+        technique="exhaustive fault enumeration (fault kind x position x singles and pairs x protocols x directory handlers) on the implementation, differential against the fault-free listing",
+        text="Every single and every pair of unservable entries (real dangling and self-referential links, FIFOs, UNIX sockets, names containing '..', directories whose children the filter rejects; seam-injected vanished entries and EACCES) "
+             "at every sort position of a 4-entry directory, listed through 7 protocols by both directory handlers and inside ZIP archives; the listing must succeed and, with the faulty names removed, equal the fault-free listing.",
+        design_ref="DESIGN.md 3/C12",
+    ),
+    "C20": dict(
+        technique="exhaustive fault enumeration over (response kind x write index x error class) on the real connection handler with a failing socket",
+        text="For 34 response kinds the clean run's write count W is measured, then for every k in 1..W+1 and each of EPIPE, ECONNRESET and a single-argument timeout the k-th and all later socket writes raise; "
+             "nothing may leave handle(), the log must name the client address and the failure's own class and no other exception class, and /proc/self/fd must be unchanged afterwards.",
+        design_ref="DESIGN.md 3/C20",
+    ),
     "C11": dict(
         technique="exhaustive crash-point enumeration (every prefix of every cache file written by the implementation) + preemption-bounded stateless DFS over writer||reader thread interleavings under a cooperative scheduler",
         text="The real server writes its directory cache; the file is then replaced by each of its prefixes 0..size (and zero/0xff-filled files) and the directory requested again through the real connection handler, "
